@@ -134,6 +134,27 @@ func (im *impl) exec(op string) string {
 				return "ok"
 			case "root":
 				return fmt.Sprintf("root=%x", im.sdb.IntermediateRoot(false))
+			case "root1":
+				return fmt.Sprintf("root=%x", im.sdb.IntermediateRoot(true))
+			case "peek": // reads only: the object is loaded into the cache, nothing is changed
+				im.sdb.GetBalance(addr(a))
+				im.sdb.GetNonce(addr(a))
+				im.sdb.GetCodeSize(addr(a))
+				return "ok"
+			case "commit1": // what the application does for every block: Commit(deleteEmptyObjects = true)
+				root, err := im.sdb.Commit(true)
+				if err != nil {
+					return "error " + err.Error()
+				}
+				if err := im.sdb.Database().TrieDB().Commit(root, false); err != nil {
+					return "error " + err.Error()
+				}
+				db := im.sdb.Database()
+				im.sdb, err = state.New(root, db)
+				if err != nil {
+					return "error " + err.Error()
+				}
+				return fmt.Sprintf("root=%x", root)
 			case "commit":
 				root, err := im.sdb.Commit(false)
 				if err != nil {
@@ -338,6 +359,30 @@ func main() {
 		}
 		var snaps []snap
 		steps = R.Range(10, 50)
+		// one world uses one deletion mode throughout, like a node does: Finalise/Commit(false) (plain go-ethereum
+		// tests) or Finalise/Commit(true) (what the application does for every transaction and block). Mixing them
+		// is not what any caller does (a Commit(false) after a Finalise(true) writes an object back that the
+		// Finalise had deleted - the same in the reference).
+		del := R.Chance(50)
+		rootOp, commitOp := "sdb root", "sdb commit"
+		if del {
+			rootOp, commitOp = "sdb root1", "sdb commit1"
+		}
+		if R.Chance(35) {
+			// directed: a slot is written and flushed, cleared and flushed, and written back to the value it had
+			// (the object's cache of committed slots must follow each flush); the account is kept non-empty
+			a, k, v := R.Intn(4), R.Intn(3), R.Range(1, 2)
+			do(fmt.Sprintf("sdb nonce %d 1", a))
+			do(fmt.Sprintf("sdb state %d %d %d", a, k, v))
+			do(rootOp)
+			do(fmt.Sprintf("sdb state %d %d 0", a, k))
+			do(rootOp)
+			do("sdb dump")
+			do(fmt.Sprintf("sdb state %d %d %d", a, k, v))
+			do("sdb dump")
+			do(commitOp)
+			do("sdb dump")
+		}
 		for k := 0; k < steps; k++ {
 			a := R.Intn(4)
 			switch c := R.Intn(100); {
@@ -358,15 +403,22 @@ func main() {
 				id := do("sdb snapshot")
 				snaps = append(snaps, snap{strings.TrimPrefix(id, "snap="), d})
 			case c < 84:
-				do("sdb root") // IntermediateRoot finalises: the journal and every snapshot are gone
+				do(rootOp) // IntermediateRoot finalises: the journal and every snapshot are gone
 				snaps = nil
 			case c < 87: // commit, reopen at the root: the content must be what it was
 				before := do("sdb dump")
-				do("sdb commit")
+				do(commitOp)
 				snaps = nil
-				if after := do("sdb dump"); after != stripSuicided(before) {
+				if after := do("sdb dump"); !del && after != stripSuicided(before) {
 					fail("account-recreated-without-further-change-is-not-committed", "after Commit and reopening the state at the returned root the accounts differ from what the live state showed (CreateAccount over an existing account journals a resetObjectChange, which marks nothing dirty: without a later change the new object is never written)", after, stripSuicided(before))
 				}
+			case c < 91: // reads, then the application's per-block commit: what was only read must survive it
+				for q := R.Range(0, 3); q > 0; q-- {
+					do(fmt.Sprintf("sdb peek %d", R.Intn(4)))
+				}
+				do(commitOp)
+				snaps = nil
+				do("sdb dump")
 			default:
 				if len(snaps) > 0 {
 					i := R.Intn(len(snaps))
@@ -379,8 +431,8 @@ func main() {
 			}
 		}
 		do("sdb dump")
-		do("sdb root")
-		r.Distinct(fmt.Sprintf("sdb steps=%d", steps/10))
+		do(rootOp)
+		r.Distinct(fmt.Sprintf("sdb steps=%d del=%v", steps/10, del))
 	}
 }
 
